@@ -373,6 +373,32 @@ def p5(ctx: Ctx):
                             shadow = any(isinstance(a, ast.Assign) and any(isinstance(tt, ast.Name) and tt.id == t.value.id for tt in a.targets) for a in ast.walk(fn))
                             if not shadow:
                                 ctx.ob(f"{m.rel}:{fn.name}:{t.value.id}[]", False, f"module-level container `{t.value.id}` is written: state carried between calls", file=m.rel, line=n.lineno)
+        # a default argument that is one shared mutable object (a display, a container call, an instance of a project class)
+        # and is modified inside the function: what one call stores is there for every later call that relies on the default
+        for fn in [x for x in ast.walk(m.tree) if isinstance(x, ast.FunctionDef)]:
+            pos = fn.args.args[len(fn.args.args) - len(fn.args.defaults) :] if fn.args.defaults else []
+            pairs = list(zip(pos, fn.args.defaults)) + [(a_, d_) for a_, d_ in zip(fn.args.kwonlyargs, fn.args.kw_defaults) if d_ is not None]
+            for a_, d_ in pairs:
+                shared = isinstance(d_, (ast.List, ast.Dict, ast.Set)) or (isinstance(d_, ast.Call) and isinstance(d_.func, ast.Name) and (d_.func.id in ("list", "dict", "set", "defaultdict", "bytearray") or d_.func.id in py.classes))
+                if not shared:
+                    continue
+                touched = None
+                for x in ast.walk(fn):
+                    if isinstance(x, ast.Call) and isinstance(x.func, ast.Attribute) and x.func.attr in _MUTATORS_P5:
+                        r_ = x.func.value
+                        while isinstance(r_, (ast.Attribute, ast.Subscript)):
+                            r_ = r_.value
+                        if isinstance(r_, ast.Name) and r_.id == a_.arg:
+                            touched = x
+                    if isinstance(x, (ast.Assign, ast.AugAssign)):
+                        for t_ in (x.targets if isinstance(x, ast.Assign) else [x.target]):
+                            r_ = t_
+                            while isinstance(r_, (ast.Attribute, ast.Subscript)):
+                                r_ = r_.value
+                            if isinstance(t_, (ast.Attribute, ast.Subscript)) and isinstance(r_, ast.Name) and r_.id == a_.arg:
+                                touched = x
+                if touched is not None:
+                    ctx.ob(f"{m.rel}:{fn.name}:{a_.arg}:shared-default", False, f"parameter `{a_.arg}` of `{fn.name}` defaults to one object created when the module is loaded (`{unparse(d_)}`), and the function modifies it (`{unparse(touched)[:60]}`): what one call stores is still there in every later call that uses the default", file=m.rel, line=touched.lineno)
         # module-level one-shot iterators (a generator expression, iter(), map(), filter(), zip() ...) read inside a function:
         # the first call consumes them, every later call sees them empty
         for gname, v in sorted(m.assigns.items()):
